@@ -744,7 +744,8 @@ func checkTokenBucket(c *report.Ctx) {
 			}
 		}
 		if g == nil {
-			c.Unresolved("ANCHOR", bwP+".Throttler.start/refill-goroutine", "no goroutine of Throttler.start calls produceTokens")
+			// (the function is there and the step is not: that is a violation, not an unresolved anchor)
+			c.Check("R-GUARD", bwP+".Throttler.start/refill-only-on-tick", "the throttler's goroutine refills the bucket through produceTokens (the one place that adds refillNumber tokens, capped at the capacity), once per tick", false, fpos(st), 1, "no goroutine of Throttler.start calls produceTokens")
 		} else {
 			facts := an.NewFacts(g)
 			ok, n := true, 0
